@@ -68,7 +68,7 @@ def make_world(case, wid="w", offset=0):
 async def check_orders(ctx, case):
     """case: {"s", "table", "rc_keys", "fc_keys", "sync": [labels completing synchronously]}"""
     s = case["s"]
-    rng = ctx.rng
+    rng = ctx.case_rng(case)
     ctx.set_case("orders", case)
     ctx.count("expressions")
     baseline = await sched.run_under(None, lambda: pipeline(s, make_world(case)))
@@ -128,7 +128,7 @@ async def check_orders(ctx, case):
 
 async def check_isolation(ctx, case):
     """K concurrent top-level evaluations, each with its own data in context-local storage"""
-    rng = ctx.rng
+    rng = ctx.case_rng(case)
     ctx.set_case("isolation", case)
     k = case["k"]
     worlds = [make_world(case, wid=f"task{i}", offset=i) for i in range(k)]
@@ -179,7 +179,7 @@ async def check_validity_product(ctx, case):
         E.set_world(E.World("outer"))
         return await is_valid_expression(s, setter)
 
-    sc = sched.Sched(sched.RandomChooser(ctx.rng))
+    sc = sched.Sched(sched.RandomChooser(ctx.case_rng(case)))
     out = await sched.run_under(sc, go)
     ctx.evaluation()
     ctx.count("validity_runs")
